@@ -202,6 +202,46 @@ Proof.
   intros Hk. rewrite (v_iter_spec s v HVv), (v_iter_spec s w HVw). congruence.
 Qed.
 
+(* popitem() (meta mappings): the first item; KeyError when empty *)
+Theorem C10_mapping_popitem : forall its ops v raw,
+  let s := run true (mkst its []) ops in
+  In v (views s) -> v_kind v = KNode ->
+  match filtered (v_tags v) (items s) with
+  | [] => m_popitem raw s v = (s, Err KeyError)
+  | x :: F' => exists s', m_popitem raw s v = (s', Ok [mkelem 0 (e_key x) 0; if raw then x else value_of x])
+                          /\ filtered (v_tags v) (items s') = F'
+  end.
+Proof.
+  intros its ops v raw s Hin HK. apply m_popitem_spec; [|exact HK].
+  exact (C10_view_inv_in_history its ops v Hin).
+Qed.
+
+(* The raw list is a view too: every mutator of RepeatedNodeWrapper is the Python list operation (PySeq) on
+   `items`, same exception class, nothing changed when it raises; drop_many validates and normalises first. *)
+Theorem C10_raw_list_semantics : forall s,
+  let its := items s in
+  (forall i x, match list_set_int its i x with
+               | Ok l => exists s', raw_setitem true s (IInt i) [x] = (s', OkNone) /\ items s' = l
+               | Err e => raw_setitem true s (IInt i) [x] = (s, Err e) end)
+  /\ (forall sl xs, match list_set_slice its sl xs with
+                    | Ok l => exists s', raw_setitem true s (ISlice sl) xs = (s', OkNone) /\ items s' = l
+                    | Err e => raw_setitem true s (ISlice sl) xs = (s, Err e) end)
+  /\ (forall index,
+        match (match index with IInt i => list_del_int its i | ISlice sl => list_del_slice its sl end) with
+        | Ok l => exists s', raw_delitem true s index = (s', OkNone) /\ items s' = l
+        | Err e => raw_delitem true s index = (s, Err e) end)
+  /\ (forall i x, exists s', raw_insert true s i x = (s', OkNone) /\ items s' = list_insert its i x)
+  /\ (forall xs, exists s', raw_extend s xs = (s', OkNone) /\ items s' = its ++ xs)
+  /\ (forall x, exists s', raw_append s x = (s', OkNone) /\ items s' = its ++ [x])
+  /\ (exists s', raw_clear s = (s', OkNone) /\ items s' = [])
+  /\ (forall i, match list_pop its i with
+                | Ok (y, l) => exists s', raw_pop s i = (s', Ok [y]) /\ items s' = l
+                | Err e => raw_pop s i = (s, Err e) end)
+  /\ (forall ps, match norm_all (zlen its) ps with
+                 | Ok qs => exists s', raw_drop_many s ps = (s', OkNone) /\ items s' = remove_positions qs its
+                 | Err e => raw_drop_many s ps = (s, Err IndexError) end).
+Proof. exact raw_list_semantics. Qed.
+
 (* What harness/c10.py evaluates (inside Coq) on every state the implementation dumped: when the checker
    says true, the dumped state satisfies the hypothesis of the theorems above. *)
 Theorem C10_dumped_state_hypothesis_sound : forall s, all_inv_b s = true -> AllInv s.
